@@ -530,6 +530,72 @@ class Comp:
         return envs
 
 
+
+# ------------------------------------------------------------------------------------------------
+# purity: an index map must be a function of its argument alone
+# ------------------------------------------------------------------------------------------------
+_PURE_NAMES = {'abs', 'int', 'float', 'range', 'len', 'min', 'max', 'ValueError', 'TypeError', 'IndexError',
+               'np', 'numpy', 'truenp', 'math', 'sign', 'is_odd', 'True', 'False', 'None'}
+_CACHE_DECORATORS = ('lru_cache', 'functools.lru_cache', 'cache', 'functools.cache')
+
+
+def purity_problems(fn):
+    """reasons why `fn` is not (syntactically) a pure function of its parameters; [] if none.
+
+    Looked for: `global` / `nonlocal`; names read that are neither parameters, locals nor the few known pure
+    callables (module-level tables, caches, search state); stores / deletes / in-place operators / mutating method
+    calls whose target is rooted in such a name (module attributes, function attributes, module lists and dicts);
+    mutable default arguments; decorators other than a plain result cache (results here are tuples of ints)."""
+    out = []
+    params = {a.arg for a in fn.args.args + fn.args.kwonlyargs}
+    if fn.args.vararg or fn.args.kwarg:
+        out.append('*args / **kwargs')
+    for d in list(fn.args.defaults) + [d for d in fn.args.kw_defaults if d is not None]:
+        if not (isinstance(d, ast.Constant) or (isinstance(d, ast.UnaryOp) and isinstance(d.operand, ast.Constant))
+                or (isinstance(d, ast.Tuple) and all(isinstance(x, ast.Constant) for x in d.elts))):
+            out.append(f'mutable or computed default argument {ast.unparse(d)}')
+    for d in fn.decorator_list:
+        name = ast.unparse(d.func) if isinstance(d, ast.Call) else ast.unparse(d)
+        if name not in _CACHE_DECORATORS:
+            out.append(f'decorator {ast.unparse(d)}')
+    local = set(params)
+    for n in ast.walk(fn):
+        if isinstance(n, (ast.Global, ast.Nonlocal)):
+            out.append(f'{type(n).__name__.lower()} {", ".join(n.names)}')
+        if isinstance(n, ast.Name) and isinstance(n.ctx, (ast.Store, ast.Del)):
+            local.add(n.id)
+        if isinstance(n, (ast.FunctionDef, ast.Lambda, ast.ClassDef)) and n is not fn:
+            out.append('nested function / class')
+        if isinstance(n, (ast.ListComp, ast.SetComp, ast.DictComp, ast.GeneratorExp)):
+            for g in n.generators:
+                for x in ast.walk(g.target):
+                    if isinstance(x, ast.Name):
+                        local.add(x.id)
+    declared = {x for n in ast.walk(fn) if isinstance(n, (ast.Global, ast.Nonlocal)) for x in n.names}
+    local -= declared
+
+    def root(x):
+        while isinstance(x, (ast.Attribute, ast.Subscript)):
+            x = x.value
+        return x.id if isinstance(x, ast.Name) else None
+    for n in ast.walk(fn):
+        if isinstance(n, ast.Name) and isinstance(n.ctx, ast.Load) and n.id not in local and n.id not in _PURE_NAMES:
+            out.append(f'reads the non-local name {n.id}')
+        if isinstance(n, (ast.Attribute, ast.Subscript)) and isinstance(n.ctx, (ast.Store, ast.Del)):
+            r = root(n)
+            if r is None or r not in local:
+                out.append(f'writes to {ast.unparse(n)}')
+        if isinstance(n, ast.Call) and isinstance(n.func, ast.Attribute):
+            r = root(n.func)
+            if r is not None and r not in local and r not in ('np', 'numpy', 'truenp', 'math'):
+                out.append(f'calls a method of the non-local {ast.unparse(n.func)}')
+    seen = []
+    for o in out:
+        if o not in seen:
+            seen.append(o)
+    return seen
+
+
 def _is_straight(fn):
     for st in fn.body:
         if isinstance(st, ast.Expr) and isinstance(st.value, ast.Constant):
@@ -544,6 +610,9 @@ def _is_straight(fn):
 
 def compile_fn(fn, lean_name, funcs, fuel=None):
     """whole function -> Lean definition text.  Parameters are Python ints."""
+    bad = purity_problems(fn)
+    if bad:
+        raise Untranslatable('not a pure function of its argument: ' + '; '.join(bad[:4]))
     params = [a.arg for a in fn.args.args]
     env = {p: (f'{p}_', 'int') for p in params}
     binders = ' '.join(f'({p}_ : Int)' for p in params)
@@ -581,6 +650,9 @@ def compile_fn(fn, lean_name, funcs, fuel=None):
 
 def compile_scalar_fn(fn, lean_name, funcs, ty):
     """one-argument helper (`sign`, `is_odd`): single return expression, argument of type `ty`"""
+    bad = purity_problems(fn)
+    if bad:
+        raise Untranslatable('not a pure function of its argument: ' + '; '.join(bad[:4]))
     (p,) = [a.arg for a in fn.args.args]
     body = [st for st in fn.body if not (isinstance(st, ast.Expr) and isinstance(st.value, ast.Constant))]
     if len(body) != 1 or not isinstance(body[0], ast.Return):
@@ -632,6 +704,13 @@ def generate(repo):
     g.item('xy_j_to_mn', 'prysm/polynomials/xy.py:xy_j_to_mn', lambda: get_def(xy, 'xy_j_to_mn'),
            whole(xy, 'xy_j_to_mn', 'xyJToMn', fuel='j_.toNat'),
            f'def xyJToMn (j_ : Int) : Option (Int × Int) := if j_ < 1 then none else some ({M}.xyJToMn j_)')
+    # structural fact (evidence; not a theorem: correct memoisation would make it false without breaking the property —
+    # when it is false the items above are `untranslatable` and the harness widens its order-independence probing)
+    def stateless():
+        fns = [get_def(mo, 'sign'), get_def(mo, 'is_odd'), get_def(xy, 'xy_j_to_mn')] + \
+              [get_def(zk, n) for n in ('nm_to_fringe', 'nm_to_ansi_j', 'ansi_j_to_nm', 'noll_to_nm', 'fringe_to_nm')]
+        return not any(purity_problems(f) for f in fns)
+    g.fact('indexMapsReadAndWriteNoModuleState', 'prysm/polynomials/zernike.py, xy.py, mathops.py', stateless)
     return g.finish()
 
 
